@@ -4,7 +4,10 @@ package main
 
 import (
 	"bytes"
+	"encoding/json"
+	"encoding/xml"
 	"fmt"
+	"io"
 	"hash/fnv"
 	"regexp"
 	"sort"
@@ -44,50 +47,45 @@ func clip(s string) string {
 	return s
 }
 
-// detectableCut: for the whole-document formats, is a cut at offset k (input = b[:k]) necessarily
-// ill-formed at the level of the carrier syntax (JSON text / XML document)?
+// detectableCut: for the whole-document formats, is the input cut at offset k (b[:k]) ill-formed at
+// the level of the carrier syntax while the complete document is well-formed? The referee is the
+// standard library (encoding/json, encoding/xml tokenizer), not the decoder under test: the oracle
+// checks that a carrier-level truncation is *surfaced* by the decoder.
 func detectableCut(format string, o Opts, b []byte, k int) bool {
 	switch format {
 	case "jsonld", "rdfjson":
 		if o.Lax {
 			return false
 		}
-		t := bytes.TrimSpace(b)
-		if len(t) == 0 || (t[0] != '{' && t[0] != '[') {
-			return false
-		}
-		first := bytes.IndexByte(b, t[0])
-		last := bytes.LastIndexAny(b, "}]")
-		return k > first && k <= last
+		return json.Valid(b) && !json.Valid(b[:k])
 	case "rdfxml":
-		// root element start: the first '<' outside processing instructions, comments and the DOCTYPE
-		start := -1
-		for i := 0; i+1 < len(b) && start < 0; {
-			switch {
-			case bytes.HasPrefix(b[i:], []byte("<?")):
-				j := bytes.Index(b[i:], []byte("?>"))
-				if j < 0 {
-					return false
-				}
-				i += j + 2
-			case bytes.HasPrefix(b[i:], []byte("<!--")):
-				j := bytes.Index(b[i+4:], []byte("-->"))
-				if j < 0 {
-					return false
-				}
-				i += 4 + j + 3
-			case bytes.HasPrefix(b[i:], []byte("<!")):
-				return false // DOCTYPE with a possible internal subset: not analysed
-			case b[i] == '<':
-				start = i
-			default:
-				i++
-			}
-		}
-		last := bytes.LastIndexByte(b, '>')
-		return start >= 0 && k > start && k <= last
+		return xmlTokenizes(b) && !xmlTokenizes(b[:k])
 	}
 	return false
+}
+
+// xmlTokenizes: the bytes are a sequence of complete XML tokens with balanced elements.
+func xmlTokenizes(b []byte) bool {
+	d := xml.NewDecoder(bytes.NewReader(b))
+	for {
+		_, err := d.RawToken()
+		if err == io.EOF {
+			break
+		}
+		if err != nil {
+			return false
+		}
+	}
+	d = xml.NewDecoder(bytes.NewReader(b))
+	for {
+		_, err := d.Token()
+		if err == io.EOF {
+			return true
+		}
+		if err != nil {
+			return false
+		}
+	}
 }
 
 // isPrefixUpToLast: a (minus possibly its last element) is a prefix of b.
